@@ -162,6 +162,17 @@ def curves(rng: Rng, n, t, kind=None, rank=None):
     raise ValueError(kind)
 
 
+def trapz_weights(t):
+    """Trapezoid quadrature weights of a grid, computed by the harness itself (the oracles must
+    not inherit a defect of FDApy's `_integration_weights`)."""
+    t = np.asarray(t, dtype=float)
+    w = np.empty(len(t))
+    w[0] = (t[1] - t[0]) / 2
+    w[-1] = (t[-1] - t[-2]) / 2
+    w[1:-1] = (t[2:] - t[:-2]) / 2
+    return w
+
+
 def S(x):
     """Rational -> protocol string."""
     return rs(x)
